@@ -45,6 +45,43 @@ PROPS = {
         assumptions=["monotonicity is proved for fully turbulent (k_lam = 0) and fully laminar (k_lam = 1) sections; "
                      "mixed laminar fractions are examined numerically by the oracle only"],
     ),
+    "C05": dict(
+        components=["CollocationPoints", "VortexMesh", "EvalVelMtx", "Horseshoe", "VLMGeometry"],
+        extra_suites=[suites.aero_pipeline_suite],
+        assumptions=["the linear solver returns a solution of the system it is given (scipy LU; contract, not modelled)",
+                     "the line-integral origin of the closed-form kernel is not formalised, only its equality with the Biot-Savart closed form"],
+    ),
+    "C04": dict(
+        components=["VortexMesh", "EvalVelMtx", "LiftDrag", "VLMGeometry", "ViscousDrag", "WaveDrag", "MomentCoefficient", "Weight", "StructuralCG"],
+        extra_suites=[suites.aero_pipeline_suite],
+        assumptions=["mirror-symmetric configuration with the root edge on y = 0, zero sideslip and no roll/yaw rate",
+                     "structural half/full equivalence is examined by the oracle only"],
+    ),
+    "C06": dict(
+        components=["EvalVelMtx", "LiftDrag", "Coeffs", "LiftCoeff2D", "TotalLiftDrag", "SumAreas", "ViscousDrag", "MomentCoefficient"],
+        extra_suites=[suites.aero_pipeline_suite],
+        assumptions=["length scaling requires that the |den| > 1e-10 branch of the kernel is the same in both configurations (known finding F9)"],
+    ),
+    "C07": dict(
+        components=["VortexMesh", "EvalVelMtx", "Taper", "Sweep", "Dihedral", "VonMisesWingbox", "VonMisesTube", "PointMassLoads", "ThrustLoads"],
+        extra_suites=[suites.aero_pipeline_suite],
+        assumptions=["structural mirror equivariance is examined by the oracle only"],
+    ),
+    "C08": dict(
+        components=["VortexMesh", "EvalVelMtx"],
+        extra_suites=[suites.aero_pipeline_suite],
+        assumptions=["the far-field limit is examined numerically (h = 1e6 chords) by the oracle, not proved"],
+    ),
+    "C09": dict(
+        components=["PGRotateTo", "PGRotateFrom", "PGScaleFrom", "PGScaleToGeom", "PGScaleToNormals"],
+        assumptions=["the wiring of compressible_states.py is tied by the real-code oracle (PG specification around the real "
+                     "incompressible solver), not by a model pipeline", "continuity of the linear solve in its data is assumed"],
+    ),
+    "C19": dict(
+        components=["Demux", "MuxForces", "Horseshoe", "CollocationPoints"],
+        extra_suites=[suites.aero_pipeline_suite],
+        assumptions=["order-independence of the solved forces is tied by the oracle (permutation theorem not proved); mphys wrapper groups are compared by the oracle when mphys is importable"],
+    ),
 }
 for k, v in PROPS.items():
     v["theorems"] = THEOREMS.get(k, {}).get("theorems", [])
